@@ -80,6 +80,10 @@ static Problem gen_problem(Rng & rg)
   }
   p.r             = Eigen::VectorXd::NullaryExpr(m, [&]() { return rs * rg.sym(); });
   p.lambda        = rg.loguni(1e-6, 1e6);
+  if (rg.coin(0.03)) {
+    p.r.setZero();  // stationary start: the minimiser is exactly zero
+    p.kind += "+zero_r";
+  }
   return p;
 }
 
@@ -119,6 +123,10 @@ int main(int argc, char ** argv)
       const Mat xl = toL(x);
       return norm2(H * xl + g) / (Hnorm * norm2(xl) + norm2(g) + std::numeric_limits<L>::min());
     };
+    if (p.r.isZero(0)) {
+      rep.require("ldlt.zero_r_gives_zero_step", st, xd.isZero(0) && xs.isZero(0) && std::isfinite(dphi_d) && std::isfinite(dphi_s), det);
+      return;
+    }
     rep.judge("ldlt.dense.normal_equations", st, backward(xd), 1e-8L, det);
     rep.judge("ldlt.sparse.normal_equations", st, backward(xs), 1e-8L, det);
     // linearised cost never increases
